@@ -47,7 +47,11 @@ for pid in sorted(vprops.PROPS):
         "evidence_file": "evidence/%s.json" % pid,
         "replay_cmd_template": "python3 vcheck.py --replay {path}",
         "engine": "vsched",
-        "level_claimed": {"category": "exploration", "text": sp["level_text"], "design_ref": "DESIGN.md section 7/" + pid},
+        "engines_used": ["vsched", "vfuzz"] if pid in vprops.FUZZ else ["vsched"],
+        "level_claimed": {"category": "exploration", "text": sp["level_text"] + (
+            " The same command then runs Engine B: coverage-guided fuzzing (libFuzzer, ASan+UBSan, assertions on) of decoded single-threaded operation "
+            "sequences of the families %s against a reference model (10^4-10^6 cases per quick run, millions in the thorough tier)." % ", ".join(vprops.FUZZ[pid])
+            if pid in vprops.FUZZ else ""), "design_ref": "DESIGN.md section 7/" + pid + " and section 13 (Engine B)"},
         "level_note": sp["level_note"],
         "technique": sp["technique"],
     })
